@@ -264,6 +264,8 @@ def run_scenario(sc, scratch):
             break
         time.sleep(0.002)
     out["tracker_ended"] = ended
+    if not ended:
+        out["flags"].append("tracker-still-running-30s-after-last-client")
     out["final_exists"] = exists_vec(root)
     out["untracked_d2"] = os.path.exists(os.path.join(root, "d2", "untracked"))
     try:
